@@ -1384,7 +1384,17 @@ def _tuple(I, args, kwargs):
 def _dict(I, args, kwargs):
     d = DictV()
     if args:
-        for k, v in dict_items(I, args[0]):
+        items = dict_items(I, args[0])
+        if any(isinstance(k, SStr) for k, _ in items) and all(is_strlike(k) and is_strlike(v) for k, v in items):
+            # symbolic string keys: an abstract map built by the same sequence of insertions
+            from .absmap import AbstractMap
+            I.ctx.fresh_n += 1
+            d.abstract = AbstractMap(I.ctx, "dict_f%d" % I.ctx.fresh_n)
+            I.ctx.assume(d.abstract.size == 0)
+            k0 = z3.String("dict_f%d_k" % I.ctx.fresh_n)
+            I.ctx.assume(z3.ForAll([k0], z3.Not(z3.Select(d.abstract.present, k0))))
+            d.abstract.order = []
+        for k, v in items:
             dict_set(I, d, k, v)
     for k, v in kwargs.items():
         dict_set(I, d, k, v)
@@ -1627,6 +1637,50 @@ def _is_list(I, args, kwargs):
 def _has_key(I, args, kwargs):
     r = dict_has(I, args[0], args[1]) if isinstance(args[0], DictV) else (args[1] in args[0])
     return r if isinstance(r, bool) else mk_bool(r)
+
+
+@_native("remove_suffix")
+def _remove_suffix(I, args, kwargs):
+    """remove_suffix(v, rest): the p with v == p + rest (meaningful when v ends with rest): stated as a
+    word equation instead of slicing by lengths"""
+    v, rest = args
+    if isinstance(v, str) and isinstance(rest, str):
+        return v[:len(v) - len(rest)] if v.endswith(rest) else v
+    p = I.ctx.fresh("consumed").z
+    I.ctx.assume(z3.Implies(z3.SuffixOf(zs(rest), zs(v)), zs(v) == z3.Concat(p, zs(rest))), kind="path")
+    return mk_str(p)
+
+
+@_native("is_fresh")
+def _is_fresh(I, args, kwargs):
+    """is_fresh(obj): a mutable object created during the call under verification (not reachable before)"""
+    v = args[0]
+    if isinstance(v, (Obj, DictV, ListV, SetV)):
+        return v.oid > I.ctx.entry_oid
+    return False
+
+
+@_native("method_name")
+def _method_name(I, args, kwargs):
+    """method_name(bound method) -> its name (how the tokenizer's `state` is observed)"""
+    m = args[0]
+    if isinstance(m, BoundMethod):
+        return m.fn.qualname.split(".")[-1]
+    if m is None:
+        return None
+    raise OutOfReach("method_name of %r" % (m,))
+
+
+@_native("appended")
+def _appended(I, args, kwargs):
+    """appended(old_list, new_list): the items new_list has beyond old_list (same unknown prefix)"""
+    old, new = args
+    if isinstance(old, ListV) and isinstance(new, ListV):
+        same = (old.prefix is None and new.prefix is None) or (
+            old.prefix is not None and new.prefix is not None and old.prefix.get_id() == new.prefix.get_id())
+        if same and len(new.items) >= len(old.items):
+            return ListV(new.items[len(old.items):])
+    raise OutOfReach("appended() of lists that are not extensions of one another")
 
 
 @_native("same_object")
